@@ -64,6 +64,8 @@ func c03(c *Ctx) {
 			// goht's own imports in every position of the list (first, middle, last), grouped or not
 			c.R.Shuffle(len(f.Imports), func(a, b int) { f.Imports[a], f.Imports[b] = f.Imports[b], f.Imports[a] })
 			f.ImportGroup = i%4 == 0
+			f.Templates = append(f.Templates, &gen.Template{Name: "RcvLines", Recv: "(o Obj) ", Sig: "(\n\tx interface {\n\t\tF(int) string\n\t},\n\tg func(int) (int, error),\n)",
+				Body: []*gen.Node{{Kind: gen.KElem, Tag: "p", Inline: &gen.Node{Kind: gen.KScript, Expr: "o.Class"}}}})
 			f.Templates = append(f.Templates, &gen.Template{Name: "Rcv", Recv: "(o Obj) ", Sig: "(x interface{ F(int) string }, g func(int) (int, error))",
 				Body: []*gen.Node{{Kind: gen.KElem, Tag: "p", Inline: &gen.Node{Kind: gen.KScript, Expr: "o.ID"}}}})
 		}
